@@ -19,7 +19,15 @@ func Parse(ctx *Context, p Parser) (Node, error) {
 	var err Error
 	var node Node
 
-	if node, _, err = p.Parse(ctx, data.EmptyIntMap, ctx.Reader().Pos(0)); err != nil {
+	node, _, err = p.Parse(ctx, data.EmptyIntMap, ctx.Reader().Pos(0))
+	if node == nil && err == nil {
+		// The parser did not match but did not say why either (e.g. a curtailed left-recursive parser)
+		if err = ctx.Error(); err == nil {
+			err = NewErrorf(ctx.Reader().Pos(0), "no match was found")
+		}
+	}
+
+	if err != nil {
 		if !IsWhitespaceError(err) {
 			if ctxErr := ctx.Error(); ctxErr != nil && ctxErr.Pos() > err.Pos() {
 				err = ctxErr
